@@ -38,6 +38,13 @@ def core_type(ty):
         return t
 
 
+def ignored_adt(path):
+    """TypeScript-only and JSX-only node types are never produced by the parser configuration of the
+    rewriter (Syntax::Es with jsx: false): they are not slots."""
+    name = path.split("::")[-1]
+    return name.startswith("Ts") or name.startswith("JSX")
+
+
 class AdtGraph:
     def __init__(self, adts):
         self.adts = adts
@@ -62,6 +69,8 @@ class AdtGraph:
             rec = self.adts.get(a)
             if not rec:
                 continue
+            if a != adt_path and ignored_adt(a):
+                continue
             for v in rec["variants"]:
                 for f in v["fields"]:
                     stack.extend(f["adts"])
@@ -69,7 +78,7 @@ class AdtGraph:
         return found
 
     def field_reaches(self, field, targets):
-        return any(self.reaches(a, targets) for a in field["adts"])
+        return any(self.reaches(a, targets) for a in field["adts"] if not ignored_adt(a))
 
     def slots(self, adt_path, targets):
         """Slots of a node type: [(slot key tuple, field record, variant name|None)]"""
@@ -405,7 +414,7 @@ class Traversal:
         # 3. inline crate-local callees that receive the node (or part of it) or the visitor
         g = self.prog.resolve_local(n)
         if g is not None:
-            cur = self._seq(cur, [Path(effects=[{"kind": "call", "fn": g.def_path, "name": g.name, "node": n, "ap": None, "vty": None}])])
+            cur = self._seq(cur, [Path(effects=[{"kind": "call", "fn": g.def_path, "name": g.name, "node": n, "ap": None, "vty": None, "depth": depth}])])
         if g is not None and g.body is not None and depth < self.max_inline:
             aps = [self.access_path(a, env) for a in args]
             if any(ap == "VISITOR" for ap in aps):
